@@ -18,6 +18,16 @@ def fibers_at(root, depth, path=()):
     return out
 
 
+def depth_of(f):
+    d = 0
+    while isinstance(f, Fiber):
+        d += 1
+        if not f.payloads:
+            return 99        # an empty fiber fits any depth
+        f = f.payloads[0]
+    return d
+
+
 def act_of(f):
     a = f.getActive()
     return [int(a[0]), int(a[1])]
@@ -77,7 +87,11 @@ def execute(case):
         out["skel_ok"] = 1 if [p for p, _ in srcs] == [p for p, _ in ress] else 0
         for (p, sf), (_, uf) in zip(srcs, ress):
             unit = {"path": p, "e": [[c, proj.proj_payload(q)] for c, q in zip(sf.coords, sf.payloads)], "act": act_of(sf),
-                    "shape": proj._shape(sf.getShape(all_ranks=False)), "ncoords": len(sf.coords), "res": []}
+                    "shape": proj._shape(sf.getShape(all_ranks=False)), "ncoords": len(sf.coords), "res": [], "unsplit": 0}
+            if uf.payloads and not all(isinstance(q, Fiber) and proj.proj_fiber(q)["k"] == "F" and depth_of(q) == depth_of(sf) for q in uf.payloads):
+                unit["unsplit"] = 1          # this fiber was not replaced by an upper/lower pair
+                out["units"].append(unit)
+                continue
             for b, lower in zip(uf.coords, uf.payloads):
                 unit["res"].append({"c": b, "e": [[c, proj.proj_payload(q)] for c, q in zip(lower.coords, lower.payloads)], "act": act_of(lower),
                                     "iteract": [c for c, _ in lower.iterActive()], "iterocc": [c for c, _ in lower.iterOccupancy()]})
@@ -100,7 +114,7 @@ def execute_nested(case):
         out["skel_ok"] = 1 if list(first.coords) == list(second.coords) else 0
         for (b, lower), (_, upper2) in zip(zip(first.coords, first.payloads), zip(second.coords, second.payloads)):
             unit = {"path": [b], "e": [[c, proj.proj_payload(q)] for c, q in zip(lower.coords, lower.payloads)], "act": act_of(lower),
-                    "shape": proj._shape(lower.getShape(all_ranks=False)), "ncoords": len(lower.coords), "res": []}
+                    "shape": proj._shape(lower.getShape(all_ranks=False)), "ncoords": len(lower.coords), "res": [], "unsplit": 0}
             for b2, l2 in zip(upper2.coords, upper2.payloads):
                 unit["res"].append({"c": b2, "e": [[c, proj.proj_payload(q)] for c, q in zip(l2.coords, l2.payloads)], "act": act_of(l2),
                                     "iteract": [c for c, _ in l2.iterActive()], "iterocc": [c for c, _ in l2.iterOccupancy()]})
